@@ -588,7 +588,11 @@ def check(pid, tier, only=None, keep=False, verbose=False):
         "violations": len(violations),
     }
     os.makedirs(os.path.join(VERIF, "evidence"), exist_ok=True)
-    json.dump(ev, open(os.path.join(VERIF, "evidence", pid + ".json"), "w"), indent=1, default=str)
+    evpath = os.path.join(VERIF, "evidence", pid + ".json")
+    if only:   # partial runs never overwrite the property's evidence file
+        os.makedirs(os.path.join(BUILD, pid), exist_ok=True)
+        evpath = os.path.join(BUILD, pid, "evidence-partial.json")
+    json.dump(ev, open(evpath, "w"), indent=1, default=str)
     # ---------- report ----------
     for (site, text), qs in sorted(known_hits.items()):
         print("KNOWN-FINDING: property=%s %s [site %s; queries %s]" % (pid, text, site, ",".join(qs[:3])))
